@@ -120,6 +120,84 @@ pub fn index_flatten() -> Report {
     r("index_flatten", bound, cases, None)
 }
 
+/// a section map with two listed sources (the second possibly without tokens), names, a range flag and an ignore list
+fn rich_map(tag: &str, toks: &[(u32, u32, usize, bool)], srcs: [&str; 2], contents: [Option<&str>; 2], ignore: &[u32]) -> SourceMap {
+    let raw: Vec<RawToken> = toks.iter().enumerate().map(|(i, &(l, c, s, rng))| RawToken { dst_line: l, dst_col: c, src_line: i as u32 + 7, src_col: c + 1, src_id: s as u32, name_id: (i % 2) as u32, is_range: rng }).collect();
+    let names: Vec<std::sync::Arc<str>> = vec![format!("{tag}_n0").into(), format!("{tag}_n1").into()];
+    let sources: Vec<std::sync::Arc<str>> = srcs.iter().map(|s| (*s).into()).collect();
+    let cts: Vec<Option<std::sync::Arc<str>>> = contents.iter().map(|c| c.map(|x| x.into())).collect();
+    let mut sm = SourceMap::new(Some(tag.into()), raw, names, sources, Some(cts));
+    for &i in ignore { sm.add_to_ignore_list(i); }
+    sm
+}
+type FlatTok = (u32, u32, String, u32, u32, Option<String>, bool);
+/// reference flattening: tokens of a section list (maps already flat), shifted; plus ignored source names and first-seen contents
+fn ref_flatten(secs: &[((u32, u32), &SourceMap)]) -> (Vec<FlatTok>, std::collections::BTreeSet<String>, Vec<(String, Option<String>)>) {
+    let mut toks = vec![]; let mut ign = std::collections::BTreeSet::new(); let mut cts: Vec<(String, Option<String>)> = vec![];
+    for (off, m) in secs { for t in m.tokens() {
+        let src = t.get_source().map(|s| s.to_string());
+        toks.push((t.get_dst_line() + off.0, if t.get_dst_line() == 0 { t.get_dst_col() + off.1 } else { t.get_dst_col() }, src.clone().unwrap_or_default(), t.get_src_line(), t.get_src_col(), t.get_name().map(|s| s.to_string()), t.is_range()));
+        if let Some(name) = src {
+            if m.ignore_list().any(|&i| i == t.get_src_id()) { ign.insert(name.clone()); }
+            let c = m.get_source_contents(t.get_src_id()).map(|s| s.to_string());
+            match cts.iter_mut().find(|e| e.0 == name) { Some(e) => if e.1.is_none() { e.1 = c; }, None => cts.push((name, c)) }
+        }
+    } }
+    (toks, ign, cts)
+}
+/// index maps with a nested index section, ignore lists naming token-less sources, names and range flags
+pub fn index_nested() -> Report {
+    let bound = "outer index [regular @(0,0), nested index @ off in {(1,0),(1,3),(2,5)}] with the nested index = [regular @(0,0), regular @(1,0)]; each map lists 2 sources (the second with or without tokens), ignore lists over subsets of {0,1}, contents present / absent, one range token; tokens kept before the next offset; all queries in [0,5]x[0,12]";
+    let mut cases = 0u64;
+    let tokensets: Vec<Vec<(u32, u32, usize, bool)>> = vec![vec![(0, 0, 0, false)], vec![(0, 0, 0, false), (0, 4, 1, true)], vec![(0, 2, 0, true), (0, 6, 0, false)], vec![]];
+    let ignores: Vec<Vec<u32>> = vec![vec![], vec![1], vec![0, 1]];
+    for off in [(1u32, 0u32), (1, 3), (2, 5)] { for ta in &tokensets { for tb in &tokensets { for tc in &tokensets { for ia in &ignores { for ib in &ignores { for ic in &ignores { for shared in [false, true] {
+        if ta.iter().any(|t| (t.0, t.1) >= off) { continue; }
+        cases += 1;
+        let ma = rich_map("a", ta, ["s.js", "va.js"], [Some("text of s (a)"), None], ia);
+        let mb = rich_map("b", tb, [if shared { "s.js" } else { "b.js" }, "vb.js"], [Some("text of first (b)"), Some("vb text")], ib);
+        let mc = rich_map("c", tc, ["c.js", if shared { "va.js" } else { "vc.js" }], [None, Some("second-source text (c)")], ic);
+        let nested = SourceMapIndex::new(Some("inner".into()), vec![
+            SourceMapSection::new((0, 0), None, Some(DecodedMap::Regular(mb.clone()))),
+            SourceMapSection::new((1, 0), None, Some(DecodedMap::Regular(mc.clone())))]);
+        if tb.iter().any(|t| (t.0, t.1) >= (1, 0)) { continue; }
+        let idx = SourceMapIndex::new(Some("outer".into()), vec![
+            SourceMapSection::new((0, 0), None, Some(DecodedMap::Regular(ma.clone()))),
+            SourceMapSection::new(off, None, Some(DecodedMap::Index(nested)))]);
+        let ctx = format!("outer [a @(0,0) tokens {ta:?} ignore {ia:?}; nested @{off:?} [b tokens {tb:?} ignore {ib:?}; c @(1,0) tokens {tc:?} ignore {ic:?}]], shared names {shared}");
+        let flat = match guarded(|| idx.flatten()) { Ok(Ok(f)) => f, o => return r("index_nested", bound, cases, Some(format!("{ctx}: flatten failed: {:?}", o.map(|x| x.map(|_| ()))))) };
+        // reference: flatten the nested index first, then the outer one
+        let (ntoks, nign, ncts) = ref_flatten(&[((0, 0), &mb), ((1, 0), &mc)]);
+        let (atoks, aign, acts) = ref_flatten(&[((0, 0), &ma)]);
+        let mut want: Vec<FlatTok> = atoks.clone();
+        for t in &ntoks { want.push((t.0 + off.0, if t.0 == 0 { t.1 + off.1 } else { t.1 }, t.2.clone(), t.3, t.4, t.5.clone(), t.6)); }
+        want.sort();
+        let mut got: Vec<FlatTok> = flat.tokens().map(|t| (t.get_dst_line(), t.get_dst_col(), t.get_source().unwrap_or("").to_string(), t.get_src_line(), t.get_src_col(), t.get_name().map(|s| s.to_string()), t.is_range())).collect();
+        got.sort();
+        if got != want { return r("index_nested", bound, cases, Some(format!("{ctx}: flattened tokens {got:?}, expected {want:?}"))); }
+        let want_ign: std::collections::BTreeSet<String> = aign.union(&nign).cloned().collect();
+        let got_ign: std::collections::BTreeSet<String> = flat.ignore_list().map(|&i| flat.get_source(i).unwrap_or("?").to_string()).collect();
+        if got_ign != want_ign { return r("index_nested", bound, cases, Some(format!("{ctx}: flattened ignore list {got_ign:?}, expected {want_ign:?}"))); }
+        let mut want_cts = acts.clone();
+        for (n, c) in &ncts { match want_cts.iter_mut().find(|e| &e.0 == n) { Some(e) => if e.1.is_none() { e.1 = c.clone(); }, None => want_cts.push((n.clone(), c.clone())) } }
+        for i in 0..flat.get_source_count() {
+            let name = flat.get_source(i).unwrap_or("").to_string();
+            let w = want_cts.iter().find(|e| e.0 == name).and_then(|e| e.1.clone());
+            let g = flat.get_source_contents(i).map(|s| s.to_string());
+            if g != w { return r("index_nested", bound, cases, Some(format!("{ctx}: contents of {name}: {g:?}, expected first-seen {w:?}"))); }
+        }
+        if flat.get_source_count() as usize != want_cts.len() { return r("index_nested", bound, cases, Some(format!("{ctx}: {} sources in the flattened map, {} referenced by tokens", flat.get_source_count(), want_cts.len()))); }
+        for l in 0..=5u32 { for c in 0..=12u32 {
+            let a = match guarded(|| idx.lookup_token(l, c).map(|t| (t.get_source().unwrap_or("").to_string(), t.get_src_line(), t.get_src_col(), t.get_name().map(|s| s.to_string())))) { Ok(x) => x, Err(p) => return r("index_nested", bound, cases, Some(format!("{ctx}: index lookup_token({l},{c}): {p}"))) };
+            let b = flat.lookup_token(l, c).map(|t| (t.get_source().unwrap_or("").to_string(), t.get_src_line(), t.get_src_col(), t.get_name().map(|s| s.to_string())));
+            if let Some(av) = &a { if Some(av) != b.as_ref() {
+                return r("index_nested", bound, cases, Some(format!("{ctx}: index lookup_token({l},{c}) = {a:?} but the flattened map gives {b:?}")));
+            } }
+        } }
+    } } } } } } } }
+    r("index_nested", bound, cases, None)
+}
+
 // ------------------------------------------------------------------ C09
 /// rewrite keeps what every position resolves to
 pub fn rewrite() -> Report {
